@@ -11,6 +11,8 @@ Driver for the enum / bit field model.  kind = `e` (NewEnumType) | `b` (NewBitfi
       -> err=<class|-> names=... values=... namemap=... valuemap=...  |  err=...   (one block per call; the table after call k
          is that of `fold` over the first k calls, the error that of call k)
   spec.assign <kind> (<name-hex> <int|->)*   -> none | ok <hex:int,...>   (RFC 7950 assignment, table listed by ascending name)
+  spec.steps  <kind> (<name-hex> <int|->)*   -> the spec.assign answer of every non-empty prefix of the calls, separated by ` | `
+      (the table read back after call k is judged against the RFC assignment of the first k calls)
   spec.text   <kind> (<name-hex> <hex|nil>)* -> na | none | ok <...>       (na: some argument is an integer in a spelling outside the claimed literal form `[-] digits` without superfluous leading zeros; none also when some argument is no integer at all)
 -/
 open Goyang Goyang.Proto
@@ -101,6 +103,10 @@ def showSpec (k : Spec.Enum.Kind) (ms : List (Name × Option Int)) : String :=
   | none => "none"
   | some t => "ok " ++ commaSep ((sortBy (fun a b => nameLt a.1 b.1) t).map fun (n, v) => s!"{encBytes n}:{v}")
 
+/-- the specification after every call: the RFC assignment of the first k members, k = 1 .. n -/
+def showSpecSteps (k : Spec.Enum.Kind) (ms : List (Name × Option Int)) : String :=
+  " | ".intercalate ((List.range ms.length).map fun i => showSpec k (ms.take (i + 1)))
+
 def handle : List String → String
   | "enum.ops" :: k :: rest =>
     match kindOf k, opsArgs rest with
@@ -117,6 +123,10 @@ def handle : List String → String
   | "spec.assign" :: k :: rest =>
     match kindOf k, specArgs rest with
     | some (_, k), some ms => showSpec k ms
+    | _, _ => "bad-op"
+  | "spec.steps" :: k :: rest =>
+    match kindOf k, specArgs rest with
+    | some (_, k), some ms => showSpecSteps k ms
     | _, _ => "bad-op"
   | "spec.text" :: k :: rest =>
     match kindOf k, textArgs rest with
